@@ -13,6 +13,7 @@ let step_oracles (bump : str -> unit) (pre : vt) (f : func) (post : vt) : (str *
   chk "C04" "print" (holds_C04 pre f post);
   chk "C05" "cursor" (holds_C05 pre f post);
   chk "C06" "scroll" (holds_C06 pre f post);
+  chk "C06" "margins_modes" (holds_C06_modes pre f post);
   chk "C07" "edit" (holds_C07 pre f post);
   chk "C08" "sgr" (holds_C08 pre f post);
   chk "C16" "alt" (holds_C16 pre f post);
@@ -59,6 +60,8 @@ let call_oracles (bump : str -> unit) (pre : vt) (o : op) (post : vt) (ls : nat 
          in
          print_endline "C10 DEBUG pre:"; show pre; print_endline "C10 DEBUG post:"; show post
        end;
+       chk "C06" "margins_resize" (holds_C06_resize pre post);
+       chk "C05" "margins_resize" (holds_C06_resize pre post);
        chk "C17" "resize" (holds_C17_resize pre post);
        chk "C18" "resize" (holds_C18_resize pre post);
        if tabs_are_default pre.vterm then chk "C18" "fresh" (tabs_are_default post.vterm)
